@@ -2,6 +2,7 @@ package props
 
 import (
 	"fmt"
+	"go/token"
 	"strings"
 
 	"golang.org/x/tools/go/ssa"
@@ -223,6 +224,39 @@ func runC04(c *eng.Ctx) {
 
 	// ---- 7. calculators --------------------------------------------------------------------------------------------------------------------
 	c.Rule("PROV", "tsdb/tblstore/metricsdata.seriesMerger.merge{decode with the block's own range}", func() { seriesMergerOwnRange(c) })
+
+	c.Rule("GUARD", "tsdb/tblstore/metricsdata.fieldReader.GetFieldData{only the requested field}", func() { fieldDataOnlyForHeldField(c) })
+
+	// ---- slot of a timestamp inside its family: the offset from the family start is never folded below the family's length ------
+	c.Rule("LAYOUT", "pkg/timeutil.{day,month,year}.CalcSlot{no wrap-around inside one family}", func() {
+		// length of one family per calculator (a table, confirmed by reading CalcFamilyStartTime / CalcFamilyEndTime):
+		//   day   -> one family per hour; month -> one family per day; year -> one family per CALENDAR MONTH (up to 31 days)
+		const hour = int64(3600 * 1000)
+		span := map[string]int64{"day": hour, "month": 24 * hour, "year": 31 * 24 * hour}
+		for _, name := range []string{"day", "month", "year"} {
+			f := c.Fn("pkg/timeutil." + name + ".CalcSlot")
+			quo := 0
+			for _, b := range eng.BlocksT(f) {
+				for _, in := range b.Instrs {
+					bo, ok := in.(*ssa.BinOp)
+					if !ok {
+						continue
+					}
+					switch bo.Op {
+					case token.QUO:
+						quo++
+						c.Check(p.Desc(bo.Y) == "interval", name+":divides-by-the-interval", bo, f, "the slot is the offset divided by the interval", "divides by "+p.Desc(bo.Y))
+					case token.REM:
+						k, isC := eng.ConstInt(bo.Y)
+						c.Check(isC && k >= span[name], name+":modulus-not-below-the-family-length", bo, f,
+							fmt.Sprintf("an offset (timestamp - base time) is reduced only modulo a constant that is at least the length of one %s-type family (%d ms): a smaller modulus folds the end of the family onto its beginning (a year-type family is a calendar month of up to 31 days, not 30)", name, span[name]),
+							fmt.Sprintf("modulus %s = %d", p.Desc(bo.Y), k))
+					}
+				}
+			}
+			c.Check(quo == 1, name+":one-division", nil, f, "CalcSlot divides once by the interval", fmt.Sprintf("%d divisions", quo))
+		}
+	})
 
 	c.Rule("EXHAUSTIVE", "pkg/timeutil.Interval{Type, Calculator}", func() {
 		pk := p.Package("pkg/timeutil")
